@@ -102,6 +102,13 @@ func (a *args) fl(f ...float64) []float64 {
 	a.floatSnap = append(a.floatSnap, snap(f))
 	return f
 }
+// flSub hands the first n of the floats to the call and watches all of them: the rest is the
+// spare capacity of the caller's slice, memory that belongs to the caller.
+func (a *args) flSub(n int, f ...float64) []float64 {
+	a.floats = append(a.floats, f)
+	a.floatSnap = append(a.floatSnap, snap(f))
+	return f[:n]
+}
 func (a *args) ps(ps []*canvas.Path) canvas.Paths {
 	a.pslice = append(a.pslice, ps)
 	a.psElems = append(a.psElems, append([]*canvas.Path(nil), ps...))
@@ -221,6 +228,9 @@ func pureCalls() (all []pureCall, core []pureCall) {
 		Q("Dash(leading-zero)", func(p *canvas.Path, a *args) { p.Dash(0.25, a.fl(0, 1, 0.5, 0.25)...) }),
 		C(Q("Dash(plain)", func(p *canvas.Path, a *args) { p.Dash(0.5, a.fl(0.5, 0.25)...) })),
 		Q("Dash(odd)", func(p *canvas.Path, a *args) { p.Dash(-0.25, a.fl(0.75)...) }),
+		Q("Dash(trailing-zero)", func(p *canvas.Path, a *args) { p.Dash(0, a.fl(0.5, 0.25, 0.75, 0)...) }),
+		Q("Dash(odd, slice with spare capacity)", func(p *canvas.Path, a *args) { p.Dash(0, a.flSub(3, 0.5, 0.25, 0.75, 9, 9, 9, 9)...) }),
+		Q("Dash(zero at both ends)", func(p *canvas.Path, a *args) { p.Dash(0.125, a.fl(0, 0.5, 0.25, 0)...) }),
 		C(Q("Reverse", func(p *canvas.Path, a *args) { p.Reverse() })),
 		C(Q("Split", func(p *canvas.Path, a *args) { p.Split() })),
 		C(Q("SplitAt", func(p *canvas.Path, a *args) { p.SplitAt(a.fl(0.5, 1.5)...) })),
